@@ -135,7 +135,13 @@ class B1282int(Contract):
     calls = {"iterbytes": lambda I, b: interp_mod.SeqChunks(b) if is_sym(b) else [b[k:k + 1] for k in range(len(b))]}
     loops = {"b1282int#0": LoopSpec(
         inv=lambda v: band(v.i == val(v.st[: v._i]), v.e == pow128(v._i)),
-        hints=lambda v: [])}
+        # slicing identities proved on their own, then used by the preservation VC
+        have=lambda v: [
+            L(v.st[: v._i + 1]) == v._i + 1,
+            veq(v.st[: v._i + 1][: v._i], v.st[: v._i]),
+            core.at(v.st[: v._i + 1], v._i) == core.at(v.st, v._i),
+            veq(v.st[v._i: v._i + 1], v.st[: v._i + 1][v._i:]),
+        ])}
     trusted = ["iterbytes(b) yields the one-byte slices of b in order"]
 
     def setup(self, i):
